@@ -232,6 +232,11 @@ func route(t failer, f format, batch *metric.BrokerBatchRows, want []accepted, d
 				if !(familyTime <= c.TS && c.TS <= famEnd) || calc.CalcFamilyTime(c.TS) != familyTime {
 					t.Fatalf("[%s] row with timestamp %d delivered to family [%d,%d] (interval %s)", f, c.TS, familyTime, famEnd, db.interval)
 				}
+				// ... and it is the CALENDAR family of that timestamp (independent model, not the calculator)
+				if first, last := familyOf(db.interval.Int64(), c.TS); familyTime != first {
+					t.Fatalf("[%s] row with timestamp %s (%d) delivered in the group of family %s (%d); its calendar family for interval %s is %s .. %s (arrival order of the shard's rows: %v)",
+						f, msText(c.TS), c.TS, msText(familyTime), familyTime, db.interval, msText(first), msText(last), arrivalOf(want, db, int32(shardIdx)))
+				}
 				before := chunk.Len()
 				n, err := row.WriteTo(&chunk)
 				if err != nil {
@@ -275,6 +280,128 @@ func route(t failer, f format, batch *metric.BrokerBatchRows, want []accepted, d
 	return st
 }
 
+func msText(ms int64) string { return time.UnixMilli(ms).UTC().Format("2006-01-02T15:04:05.000Z") }
+
+// arrivalOf lists, for failure messages, the timestamps of the accepted in-window rows of one
+// shard in the order they were sent, as offsets from the first millisecond of the family of
+// the first of them.
+func arrivalOf(want []accepted, db *dbCfg, shard int32) []string {
+	var out []string
+	var base int64
+	for _, w := range want {
+		if w.outside || jumpHash(w.c.TagsHash, db.shards) != shard {
+			continue
+		}
+		if out == nil {
+			base, _ = familyOf(db.interval.Int64(), w.c.TS)
+			out = append(out, "family "+msText(base)+":")
+		}
+		out = append(out, fmt.Sprintf("%+dms", w.c.TS-base))
+	}
+	return out
+}
+
+// familyShape classifies the in-window rows of one request per shard (by the model): how many
+// calendar families the shard's rows span, whether rows sit on the first / last millisecond of
+// a family, whether a first-millisecond row follows (in time) a row of the family before it in
+// the same shard, and the arrival order of the shard's timestamps.
+type familyShape struct {
+	multiFamilyShards  int // shards whose rows span >= 2 families
+	singleFamilyShards int // shards with >= 2 rows, all of one family (the iterator's fast path)
+	firstMs, lastMs    int // rows on the first / last millisecond of their family
+	seam               int // shards holding a row on the last ms (or anywhere) of family F and one on the first ms of the next family
+	fastPathEdges      int // single-family shards that hold both the first and the last ms of the family
+	sorted, reversed   int // multi-row shards whose timestamps arrive ascending / descending
+	unsorted           int
+}
+
+func shapeOf(want []accepted, db *dbCfg) familyShape {
+	var sh familyShape
+	iv := db.interval.Int64()
+	byShard := map[int32][]int64{}
+	var order []int32
+	for _, w := range want {
+		if w.outside {
+			continue
+		}
+		s := jumpHash(w.c.TagsHash, db.shards)
+		if _, ok := byShard[s]; !ok {
+			order = append(order, s)
+		}
+		byShard[s] = append(byShard[s], w.c.TS)
+	}
+	for _, s := range order {
+		tss := byShard[s]
+		fams := map[int64]bool{}
+		firstOf := map[int64]bool{} // families whose first ms carries a row
+		lastSeen := map[int64]bool{}
+		asc, desc := true, true
+		for i, ts := range tss {
+			first, last := familyOf(iv, ts)
+			fams[first] = true
+			if ts == first {
+				sh.firstMs++
+				firstOf[first] = true
+			}
+			if ts == last {
+				sh.lastMs++
+				lastSeen[first] = true
+			}
+			if i > 0 && tss[i-1] > ts {
+				asc = false
+			}
+			if i > 0 && tss[i-1] < ts {
+				desc = false
+			}
+		}
+		for fam := range firstOf {
+			if prevFirst, _ := familyOf(iv, fam-1); fams[prevFirst] {
+				sh.seam++
+				break
+			}
+		}
+		if len(tss) >= 2 {
+			switch {
+			case len(fams) >= 2:
+				sh.multiFamilyShards++
+			default:
+				sh.singleFamilyShards++
+				for fam := range fams {
+					if firstOf[fam] && lastSeen[fam] {
+						sh.fastPathEdges++
+					}
+				}
+			}
+			switch {
+			case asc && !desc:
+				sh.sorted++
+			case desc && !asc:
+				sh.reversed++
+			case !asc && !desc:
+				sh.unsorted++
+			}
+		}
+	}
+	return sh
+}
+
+func (sh familyShape) classes(into map[string]bool) {
+	set := func(c string, n int) {
+		if n > 0 {
+			into[c] = true
+		}
+	}
+	set("family:shard-spans>=2-families", sh.multiFamilyShards)
+	set("family:shard-all-rows-one-family(fast-path)", sh.singleFamilyShards)
+	set("family:row-on-first-ms", sh.firstMs)
+	set("family:row-on-last-ms", sh.lastMs)
+	set("family:first-ms-row-with-previous-family-row-in-shard", sh.seam)
+	set("family:fast-path-with-first-and-last-ms", sh.fastPathEdges)
+	set("family:shard-arrival-ascending", sh.sorted)
+	set("family:shard-arrival-descending", sh.reversed)
+	set("family:shard-arrival-unsorted", sh.unsorted)
+}
+
 // amKey identifies a generated metric independently of the clock (timestamp as offset from
 // the case's now) and of addresses.
 func amKey(m *am, now int64) string {
@@ -312,7 +439,7 @@ func TestIngestRoute(t *testing.T) {
 		now := time.Now().UnixMilli() // sampled once; only offsets from it are generated / recorded
 		caseNow = now
 		db := genDB(t)
-		e := &env{now: now, behind: db.behind, ahead: db.ahead}
+		e := &env{now: now, behind: db.behind, ahead: db.ahead, interval: db.interval.Int64()}
 		if db.behind != parseIntervalMs(db.opt.Behind) || db.ahead != parseIntervalMs(db.opt.Ahead) {
 			t.Fatalf("GetAcceptWritableRange() = ahead %d behind %d for option ahead=%q behind=%q", db.ahead, db.behind, db.opt.Ahead, db.opt.Behind)
 		}
@@ -392,6 +519,7 @@ func TestIngestRoute(t *testing.T) {
 				continue
 			}
 			// channelManager.Write: route, then release the batch to the pool
+			shapeOf(want, db).classes(classes)
 			st := route(t, f, batch, want, db)
 			batch.Release()
 			routed++
@@ -444,7 +572,7 @@ func TestFormatsAgree(t *testing.T) {
 		}
 		influxy := rapid.Bool().Draw(t, "influxy")
 		if influxy {
-			target = forInflux(target, rc)
+			target = forInflux("TestFormatsAgree", target, rc)
 		}
 		for f := fProto; f <= fInflux; f++ {
 			target = excludeKnownShapes("TestFormatsAgree", target, rc, f)
